@@ -59,6 +59,9 @@ func (r *RemoteSSH) Close() error {
 // any other way.
 func (r *RemoteSSH) HasChunk(id ChunkID) (bool, error) {
 	if _, err := r.GetChunk(id); err != nil {
+		if _, ok := err.(ChunkMissing); ok { // not there, which is not a failure
+			return false, nil
+		}
 		return false, err
 	}
 	return true, nil
